@@ -38,7 +38,8 @@ from lib import Err, VERIF, case_key, normalize
 ID = "C04"
 COQ_IMPORTS = "From DV Require Import Model.UntrustedM."
 COQ_RUN = "UntrustedM.run"
-CASE_TIMEOUT = 20.0
+CASE_TIMEOUT = 30.0
+IMPL_SECONDS = float(os.environ.get("VERIF_C04_CASE_SECONDS", "5"))
 TRUSTED = [
     "models: coq/Model/ParserM.v (dns/wirebase.py Parser, name.from_wire_parser), coq/Model/UntrustedM.v (ExceptionWrapper, "
     "rdata.from_wire_parser around an arbitrary per-type parser, message._WireReader incl. continue_on_error/Truncated/OPT/TSIG/"
@@ -264,7 +265,25 @@ def _probe_of(case):
     return None
 
 
+_hangs = [0]
+
+
 def impl(case):
+    """every case runs under the flag-based watchdog of c04probe (an exception thrown by a signal
+    handler would be swallowed by ExceptionWrapper / continue_on_error)"""
+    if _hangs[0] >= 8:
+        # the implementation loops on this family of inputs; each further hang costs a watchdog period
+        return Err(-2, "hang (not re-run: 8 earlier cases already hung)")
+    val, exc, hung = P.guarded(lambda: impl1(case), IMPL_SECONDS)
+    if hung:
+        _hangs[0] += 1
+        return Err(-2, "hang")
+    if exc is not None:
+        raise exc
+    return val
+
+
+def impl1(case):
     pr = _probe_of(case)
     if pr is not None:
         out, f = P.run_probe(pr[0], pr[1])
@@ -434,9 +453,38 @@ def gen_model_message(rng):
     if rng.random() < 0.1:
         body += bytes(rng.randrange(256) for _ in range(rng.choice([1, 2, 5])))
     if rng.random() < 0.1:
-        counts[rng.randrange(3)] += rng.choice([1, 2, 100, 65000])
+        counts[rng.randrange(3)] += rng.choice([1, 2, 100, 100, 700])
     hdr = struct.pack("!HHHHHH", rng.randrange(65536), flags, qn, min(counts[0], 65535), min(counts[1], 65535), min(counts[2], 65535))
     return hdr + body, spans
+
+
+def fixed_messages():
+    q = nm([b"www", b"example"]) + struct.pack("!HH", 1, 1)
+    a_ok = b"\xc0\x0c" + struct.pack("!HHIH", 1, 1, 300, 4) + b"\x0a\0\0\x01"
+    a_short = b"\xc0\x0c" + struct.pack("!HHIH", 1, 1, 300, 3) + b"\x0a\0\0"
+    mx_ok = b"\xc0\x0c" + struct.pack("!HHIH", 15, 1, 0x80000000, 4) + b"\0\x0a\xc0\x0c"
+    tsig_rd = nm([b"hmac-sha256"]) + struct.pack("!HIH", 0, 1700000000, 300) + struct.pack("!H", 0) + struct.pack("!HHH", 7, 0, 0)
+    tsig = nm([b"keyname"]) + struct.pack("!HHIH", 250, 255, 0, len(tsig_rd)) + tsig_rd
+    opt = b"\0" + struct.pack("!HHIH", 41, 1232, 0, 0)
+    out = []
+    # failing record in the middle, good ones around it, a TSIG last, trailing junk
+    out.append(struct.pack("!HHHHHH", 1, 0x8180, 1, 3, 0, 1) + q + a_ok + a_short + mx_ok + tsig + b"\xff\xff")
+    # OPT in the answer section (BadEDNS), records after it
+    out.append(struct.pack("!HHHHHH", 2, 0x8180, 1, 2, 0, 1) + q + opt + a_ok + opt)
+    # two OPTs in additional; TSIG not last
+    out.append(struct.pack("!HHHHHH", 3, 0x0100, 1, 0, 0, 3) + q + opt + tsig + opt)
+    # TC set, short record, then a good one
+    out.append(struct.pack("!HHHHHH", 4, 0x8380, 1, 2, 0, 0) + q + a_short + a_ok)
+    # UPDATE: zone SOA, prerequisite (class ANY, empty), update (class NONE with rdata, class ANY with rdata = FormError)
+    zq = nm([b"example"]) + struct.pack("!HH", 6, 1)
+    pre = nm([b"a", b"example"]) + struct.pack("!HHIH", 1, 255, 0, 0)
+    upd1 = nm([b"b", b"example"]) + struct.pack("!HHIH", 1, 254, 0, 4) + b"\x0a\0\0\x02"
+    upd2 = nm([b"c", b"example"]) + struct.pack("!HHIH", 1, 255, 0, 4) + b"\x0a\0\0\x03"
+    upd3 = nm([b"d", b"example"]) + struct.pack("!HHIH", 16, 1, 300, 2) + b"\x01x"
+    out.append(struct.pack("!HHHHHH", 5, 0x2800, 1, 1, 3, 0) + zq + pre + upd1 + upd2 + upd3)
+    # UPDATE whose zone section is not a SOA
+    out.append(struct.pack("!HHHHHH", 6, 0x2800, 1, 0, 1, 0) + q + upd1)
+    return out
 
 
 def gen_ops(rng, depth=0):
@@ -476,7 +524,7 @@ def cases(ctx):
     s = P.load_seeds()
     wires = [w for w in s.msg_wires] + [r[3] for r in s.rdatas if len(r[3]) > 3]
     # -- Parser programs
-    for _ in range(ctx.n(500, 12000)):
+    for _ in range(ctx.n(500, 6000)):
         w = rng.choice(wires) if rng.random() < 0.7 else bytes(rng.choice(P.INTERESTING_BYTES) for _ in range(rng.randrange(30)))
         if rng.random() < 0.3:
             w = P.mutate_bytes(rng, w)
@@ -484,7 +532,7 @@ def cases(ctx):
         cur = rng.choice([0, 0, 0, 12, 1, len(w), len(w) + 1, -1, rng.randrange(len(w) + 1)])
         yield "parser", [30, w, cur, gen_ops(rng)]
     # -- dns.name.from_wire
-    for _ in range(ctx.n(400, 10000)):
+    for _ in range(ctx.n(400, 5000)):
         r = rng.random()
         if r < 0.4:
             pre = bytes(rng.randrange(256) for _ in range(rng.choice([0, 3, 12])))
@@ -504,7 +552,7 @@ def cases(ctx):
             off = 0
         yield "name_wire", [31, w[:400], max(-1, min(off, len(w) + 1))]
     # -- dns.rdata.from_wire, modelled types
-    for _ in range(ctx.n(400, 10000)):
+    for _ in range(ctx.n(400, 5000)):
         t = rng.choice(MODELLED_TYPES + [41, 250])
         c = 1 if rng.random() < 0.9 else rng.choice([4, 254, 255])
         pre = nm([b"www", b"example"]) if rng.random() < 0.5 else b""
@@ -515,25 +563,30 @@ def cases(ctx):
         suf = bytes(rng.randrange(256) for _ in range(rng.choice([0, 0, 3])))
         yield "rdata_wire", [32, pre + rd + suf, c, t, len(pre), rdlen]
     # -- dns.message.from_wire
-    for _ in range(ctx.n(900, 24000)):
+    for _ in range(ctx.n(900, 12000)):
         w, spans = gen_model_message(rng)
         if rng.random() < 0.6:
             w = P.mutate_bytes(rng, w, spans)
         yield "msg", [40, w[:600], rng.randrange(128)]
+    # fixed messages under every option combination: a failing record in the middle, OPT/TSIG
+    # placement, TSIG + trailing junk, UPDATE forms, TC with a short record
+    for w in fixed_messages():
+        for bits in range(128):
+            yield "msg_fixed", [40, w, bits]
     for w in ([b"", b"\0" * 11, b"\0" * 12, b"\0\0\x02\0" + b"\0" * 8, b"\0\0\x02\0\0\x01" + b"\0" * 6]):
         for bits in (0, 4, 8, 12, 2, 16):
             yield "msg", [40, w, bits]
     # -- ttl / grange
-    for _ in range(ctx.n(400, 8000)):
+    for _ in range(ctx.n(400, 4000)):
         t = "".join(rng.choice(TTL_ATOMS) for _ in range(rng.choice([1, 1, 2, 3, 4, 6])))
         yield "ttl", [50, [ord(c) for c in t]]
     for t in ("1" * 4300, "1" * 4301, "0" * 4300 + "1", "0" * 4299 + "1", "0" * 4290 + "4294967295", "1" * 4301 + "s"):
         yield "ttl", [50, [ord(c) for c in t]]
-    for _ in range(ctx.n(300, 5000)):
+    for _ in range(ctx.n(300, 2500)):
         t = "".join(rng.choice(GR_ATOMS) for _ in range(rng.choice([1, 2, 3, 3, 4, 5, 6])))
         yield "grange", [51, [ord(c) for c in t], 0]
     # -- name text (NameM op 5) and tokenizer / unescape (TokM ops 2-4)
-    for _ in range(ctx.n(300, 8000)):
+    for _ in range(ctx.n(300, 4000)):
         atoms = ["a", "www", "example", ".", ".", "\\", "\\.", "\\0", "\\06", "\\065", "\\255", "\\256", "\\999", "@", "*", "x" * 63, "y" * 64,
                  "\\\\", "\x00", "\xff", " ", "\\a", "5"]
         t = "".join(rng.choice(atoms) for _ in range(rng.choice([1, 2, 3, 4, 6])))
@@ -541,7 +594,7 @@ def cases(ctx):
             t = ".".join(["a" * 63] * 3 + ["b" * rng.choice([59, 60, 61, 62, 63])]) + rng.choice(["", "."])
         o = rng.choice([None, [b""], [b"example", b""], [b"x" * 63, b"y" * 63, b""]])
         yield "name_text", [60, 5, t.encode("latin-1"), o]
-    for _ in range(ctx.n(400, 8000)):
+    for _ in range(ctx.n(400, 4000)):
         atoms = ["a", "bc", " ", "\t", "\n", ";", "(", ")", '"', "\\", "\\0", "\\06", "\\065", "\\255", "\\256", "\\3a0", "\\\\", "\\\"",
                  "x y", "é", "߿", "\U0001f600", "1", "00", "\\;", "\\("]
         t = "".join(rng.choice(atoms) for _ in range(rng.choice([1, 2, 3, 5, 8])))
@@ -575,6 +628,8 @@ def oracle(ctx, kind, case, out):
             f["case"] = case
             return [f]
         return []
+    if isinstance(out, Err) and out.code == -2:
+        return F  # the hang itself is reported by lib
     op = case[0]
     if op == 30:
         # AssertionError on a negative size is the documented contract of the Parser API itself
@@ -665,43 +720,56 @@ def _exhaustive_small(ctx):
             w = base[:pos] + bytes([v]) + base[pos + 1:]
             for bits in (0, 8, 8 | 2 | 1, 4 | 8):
                 n += 1
-                out, f = P.run_probe("msg_wire", [w, bits], seconds=10.0)
+                out, f = P.run_probe("msg_wire", [w, bits], seconds=None)
                 if f:
                     fails.append(f)
+                    if len([x for x in fails if x["kind"] == "hang"]) >= 3:
+                        return n, fails
     for a in range(256):
         for b in (range(256) if ctx.tier == "thorough" else (0, 1, 12, 63, 64, 0xC0, 0xFF)):
             n += 1
-            out, f = P.run_probe("name_wire", [bytes([a, b, 0]), 0], seconds=10.0)
+            out, f = P.run_probe("name_wire", [bytes([a, b, 0]), 0], seconds=None)
             if f:
                 fails.append(f)
+                if len([x for x in fails if x["kind"] == "hang"]) >= 3:
+                    return n, fails
     return n, fails
 
 
 def extra(ctx):
+    """the oracle proper: rounds of fuzz batches on VERIF_C04_PROCS processes until the time box
+    (quick 75 s, thorough 600 s) or the probe cap is reached; batch seeds depend only on VERIF_SEED
+    and the batch index, so any failure is replayable from its probe alone"""
     t0 = time.time()
     s = P.load_seeds()
     fails = []
     counts = {}
-    procs = int(os.environ.get("VERIF_C04_PROCS", "8"))
-    total = ctx.n(int(os.environ.get("VERIF_C04_QUICK", "56000")), int(os.environ.get("VERIF_C04_THOROUGH", "900000")))
-    per = max(1, total // (procs * 4))
-    jobs = [(ctx.seed * 7919 + 17 * i, per, None) for i in range(procs * 4)]
+    procs = min(8, int(os.environ.get("VERIF_C04_PROCS", "8")))
+    box = float(os.environ.get("VERIF_C04_SECONDS", ctx.n(70, 300)))
+    cap = int(os.environ.get("VERIF_C04_PROBES", ctx.n(1500000, 12000000)))
+    floor = int(os.environ.get("VERIF_C04_MIN_PROBES", ctx.n(40000, 400000)))
+    per = ctx.n(2500, 10000)
+    nbatch = 0
+    hung = False
     with mp.get_context("fork").Pool(procs) as pool:
-        it = pool.imap_unordered(P.fuzz_batch, jobs)
-        done = 0
-        while True:
-            try:
-                c, fs = it.next(timeout=600)
-            except StopIteration:
+        while not hung:
+            done_probes = sum(counts.values())
+            if done_probes >= cap or (time.time() - t0 > box and done_probes >= floor):
                 break
-            except mp.TimeoutError:
-                fails.append({"kind": "hang", "entry": "batch", "what": "a fuzz batch did not finish within 600 s (watchdog of the watchdog)", "sig": "batch-hang"})
-                pool.terminate()
-                break
-            done += 1
-            for k, v in c.items():
-                counts[k] = counts.get(k, 0) + v
-            fails += fs
+            jobs = [(ctx.seed * 7919 + 17 * (nbatch + i), per, None) for i in range(procs)]
+            nbatch += procs
+            it = pool.imap_unordered(P.fuzz_batch, jobs)
+            for _ in jobs:
+                try:
+                    c, fs = it.next(timeout=900)
+                except mp.TimeoutError:
+                    fails.append({"kind": "hang", "entry": "batch", "what": "a fuzz batch did not finish within 900 s (the per-probe watchdog did not fire)", "sig": "batch-hang"})
+                    pool.terminate()
+                    hung = True
+                    break
+                for k, v in c.items():
+                    counts[k] = counts.get(k, 0) + v
+                fails += fs
     n_ex, f_ex = _exhaustive_small(ctx)
     fails += f_ex
     for k, v in counts.items():
@@ -710,7 +778,7 @@ def extra(ctx):
     ctx.notes["extra_evaluations"] = nprobe + n_ex
     ctx.notes["extra_nontrivial"] = sum(v for k, v in counts.items() if k.endswith(":ok")) + len([k for k in counts if ":exc" in k])
     ctx.notes["exhaustive"] = False
-    ctx.notes["oracle_probes"] = {"random": nprobe, "exhaustive_small_scope": n_ex, "seconds": round(time.time() - t0, 1),
+    ctx.notes["oracle_probes"] = {"random": nprobe, "batches": nbatch, "exhaustive_small_scope": n_ex, "seconds": round(time.time() - t0, 1),
                                   "seed_specimens": {"rdatas": len(s.rdatas), "zone_lines": len(s.zone_lines), "test_literals": len(s.texts),
                                                      "wire_literals": len(s.wires), "messages": len(s.msg_wires)}}
     # de-duplicate by signature, smallest probe first
@@ -743,7 +811,7 @@ def widen(ctx, disagreements):
         case = d.get("case")
         if isinstance(case, list) and case and case[0] == 40:
             for bits in range(0, 128):
-                out, f = P.run_probe("msg_wire", [bytes(case[1]), bits], seconds=10.0)
+                out, f = P.run_probe("msg_wire", [bytes(case[1]), bits], seconds=None)
                 if f:
                     fails.append(f)
     fails.sort(key=lambda f: len(repr(f.get("probe"))))
